@@ -18,13 +18,14 @@ type Ctx struct {
 	RPC []*RPCSite
 	// rpcTargets: call instruction -> RPCAPI methods it dispatches to
 	rpcTargets map[ssa.CallInstruction][]*ssa.Function
-	rpcCtx     map[ssa.CallInstruction]map[ssa.CallInstruction][]*ssa.Function
+	rpcParam   map[ssa.CallInstruction]bool // site whose strings come from parameters
+	ctxFns     map[*ssa.Function]bool       // functions visited per entry site
 	rpcUnres   []string
 	reachMemo  map[*ssa.Function]map[*ssa.Function]bool
 }
 
 func newCtx(p *Program) *Ctx {
-	return &Ctx{P: p, rpcTargets: map[ssa.CallInstruction][]*ssa.Function{}, rpcCtx: map[ssa.CallInstruction]map[ssa.CallInstruction][]*ssa.Function{}, reachMemo: map[*ssa.Function]map[*ssa.Function]bool{}}
+	return &Ctx{P: p, rpcTargets: map[ssa.CallInstruction][]*ssa.Function{}, rpcParam: map[ssa.CallInstruction]bool{}, ctxFns: map[*ssa.Function]bool{}, reachMemo: map[*ssa.Function]map[*ssa.Function]bool{}}
 }
 
 func (c *Ctx) prepare() {
